@@ -42,7 +42,7 @@ func init() {
 	}
 	kernel.Register(&kernel.Rig{
 		Property: "C05", Name: "R-chain/replicas", Level: "exploration",
-		Rule:        "one run = one seeded chain of 2-10 blocks (every transaction kind of txgen incl. failing calls, token maps, WASM test contracts, multi-signature/upgrade, confidential transactions; optional elections with VotePeriod 2-3 so that the validator set changes) built on proposer P (explicit list or mempool) and executed on 2-4 persistent replicas + 1-3 ephemeral repetitions per block (fresh instances reopened from a pre-block disk image) that differ in storage mode (trie/kv), mempool cache (off / cold / warm with the block's transactions / warm with other transactions / entries parked before their basic check), age (long-lived / reopened before every block), path (CommitBlock fastsync flag), and the tape-decided order in which the signature pre-check workers pass GetTxFromCache; sometimes a Byzantine block carrying an unbalanced confidential transaction is offered to all replicas. Oracle: an honest block is accepted everywhere; the stored TxsResult (gas, state hash, receipt hash, bloom, candidates; trie root among same-mode replicas), receipts+logs, the confidential outputs and key images written, the special transactions recorded and the next validator list are byte-equal after encoding on every replica and repetition; Byzantine blocks get the same verdict everywhere. non-trivial = >= 2 blocks with >= 6 transactions executed on >= 3 instances; distinct = hash of the chain's (state hash, receipt hash) sequence and the replica variants",
+		Rule:        "one run = one seeded chain of 2-10 blocks (every transaction kind of txgen incl. failing calls, token maps, WASM test contracts, multi-signature/upgrade, confidential transactions; optional elections with VotePeriod 2-3 so that the validator set changes) built on proposer P (explicit list or mempool) and executed on 2-4 persistent replicas + 1-3 ephemeral repetitions per block (fresh instances reopened from a pre-block disk image) that differ in storage mode (trie/kv), mempool cache (off / cold / warm with the block's transactions / warm with other transactions / entries parked before their basic check), age (long-lived / reopened before every block), path (CommitBlock fastsync flag), and the tape-decided order in which the signature pre-check workers pass GetTxFromCache; in 5 of 6 runs contract storage life cycles across blocks (txgen.LifeGen: CLife contracts whose constructor writes slots; later blocks overwrite, clear, read / increment / copy / re-write slots cleared in EARLIER blocks, set+clear and clear+set inside one transaction, reverted calls, coin and issued tokens sent in, SELFDESTRUCT of contracts holding storage, coin and tokens to itself / an account / a fresh address / another contract; a factory CREATE2s children, colliding CREATE2, and - in 1 of 3 of those runs - re-creation of a destroyed child at the same address followed by reads of every slot the old incarnation held); with life cycles on the replica set always holds both storage modes; sometimes a Byzantine block carrying an unbalanced confidential transaction is offered to all replicas. Oracle: an honest block is accepted everywhere (a proposer panic on an explicit list is judged by a second opinion of the same instance on hash-identical objects that passed its basic check: success there = the execution depends on values cached in transaction objects); the stored TxsResult (gas, state hash, receipt hash, bloom, candidates; trie root among same-mode replicas), receipts+logs, the confidential outputs and key images written, the special transactions recorded and the next validator list are byte-equal after encoding on every replica and repetition; after every block the state of every life-cycle contract (code, nonce, coin and token balances, every slot any incarnation ever touched) is read back from every instance's DISK through a fresh state.StateDB (not the running application) and must be identical on all instances and equal to the rig's own storage model (plain maps advanced from calldata and receipt statuses); Byzantine blocks get the same verdict everywhere. non-trivial = >= 2 blocks with >= 6 transactions executed on >= 3 instances; distinct = hash of the chain's (state hash, receipt hash) sequence and the replica variants",
 		Real:        []string{"app.LinkApplication (CreateBlock, PreRunBlock, CheckBlock incl. verifyTxsOnProcess workers, CommitBlock, election path)", "state processor/transition", "state.StateDB trie and kv mode (real kvState.wal file)", "vm/evm, vm/wasm", "mempool incl. tx cache (txHeap) and AddTx", "blockchain.BlockStore", "utxo.UtxoStore", "txmgr", "consensus.BlockExecutor.ApplyBlock", "p2p.ConManager (socket-free) as sink of the election callback", "secp256k1"},
 		Stub:        []string{"consensus state machine (commit signed by the harness with the validator keys)", "storage engine (SimDB)", "libxcrypto (pure-Go model: group arithmetic real, range proof transparent)", "fee-distribution WASM contract not deployed"},
 		Assumptions: []string{"runtime.NumCPU() is fixed per machine (recorded in the sample): the worker count (NumCPU+3)/4 is not varied, the order of the workers at the cache is", "process-wide singletons (BlockBalanceRecordsInstance, BlacklistInstance, UTXO rate getter) are shared by the replicas of a run; the rate getter is re-registered before each replica acts, balance records are off as in node start-up, no blacklist transactions are generated"},
